@@ -5,7 +5,7 @@ Import ListNotations.
 Require Import EV.model.Purity EV.proofs.PurityP EV.model.FdTable EV.proofs.FdTableP EV.gen.Facts.
 Open Scope string_scope.
 
-Definition pur_cfg : pcfg := {| shadow_checked := purity_shadow_checked; global_stmt_checked := purity_global_stmt_checked |}.
+Definition pur_cfg : pcfg := {| shadow_checked := purity_shadow_checked; global_stmt_checked := purity_global_stmt_checked; gloads_checked := purity_gloads_checked |}.
 Lemma C06_cfg_ok : pcfg_ok pur_cfg /\ purity_check_shape_ok = true /\ remote_exec_shape_ok = true /\
   init_popen_ops = canon_ops /\ init_popen_io_built_on_saved_fds = true /\ send_dumps_before_write = true /\ chan_close_shape_ok = true.
 Proof. repeat split; reflexivity. Qed.
@@ -20,6 +20,17 @@ Theorem C06_purity_sound : forall builtins f, compiler_facts f -> accept pur_cfg
   forall n, In n (gloads f) -> In n builtins /\ ~ In n (module_names f).
 Proof. intros builtins f. exact (accept_sound pur_cfg builtins f (proj1 C06_cfg_ok)). Qed.
 Print Assumptions C06_purity_sound.
+(* ... and since the checker also scans what the COMPILED code looks up globally, the same conclusion holds with no assumption about the
+   compiler at all (the assumption above is false on Python 3.12 for comprehension variables: C06_comprehension_variable_refuted) *)
+Theorem C06_purity_sound_direct : forall builtins f, accept pur_cfg builtins f = true ->
+  is_lambda f = false /\ first f = Some "channel" /\ has_closure f = false /\
+  forall n, In n (gloads f) -> In n builtins /\ ~ In n (module_names f).
+Proof. intros builtins f. exact (accept_sound_direct pur_cfg builtins f eq_refl eq_refl). Qed.
+Print Assumptions C06_purity_sound_direct.
+Theorem C06_comprehension_variable_refuted :
+  let f := {| names := ["x"; "range"; "channel"]; varnames := ["channel"; "x"]; gloads := ["range"; "x"]; first := Some "channel"; has_closure := false; is_lambda := false; module_names := []; global_decls := [] |} in
+  accept {| shadow_checked := true; global_stmt_checked := true; gloads_checked := false |} ["range"] f = true /\ In "x" (gloads f) /\ ~ In "x" ["range"].
+Proof. exact comprehension_variable_refuted. Qed.
 
 (* stdio: whatever other descriptors are open, if 0 and 1 are the protocol's pipe ends (and the out end is nowhere else)
    then after init_popen_io -- the operation list READ OFF THE SOURCE equals canon_ops -- fd 0 and 1 are /dev/null, the IO
@@ -53,5 +64,5 @@ Proof. vm_compute. reflexivity. Qed.
 (* what the pinned tree accepted *)
 Theorem C06_shadowed_builtin_refuted :
   let f := {| names := ["id"; "channel"]; varnames := ["channel"]; gloads := ["id"]; first := Some "channel"; has_closure := false; is_lambda := false; module_names := ["id"]; global_decls := [] |} in
-  accept {| shadow_checked := false; global_stmt_checked := true |} ["id"; "len"] f = true /\ In "id" (gloads f) /\ In "id" (module_names f).
+  accept {| shadow_checked := false; global_stmt_checked := true; gloads_checked := false |} ["id"; "len"] f = true /\ In "id" (gloads f) /\ In "id" (module_names f).
 Proof. exact shadow_unchecked_refuted. Qed.
